@@ -35,6 +35,13 @@ func applyVariant(typ, variant string, src []byte, base string) []byte {
 		}
 		zw.Close()
 		return buf.Bytes()
+	case (typ == "pe-dll" || typ == "pe-exe") && variant == "tweaked":
+		// a different image: one byte of section data changed
+		out := append([]byte(nil), src...)
+		if l, err := parsePE(out); err == nil && len(l.sectionRaw) > 0 {
+			out[l.sectionRaw[0][0]+16] ^= 0x55
+		}
+		return out
 	case typ == "pe-dll" && strings.HasPrefix(variant, "overlay"):
 		var n int
 		fmt.Sscanf(variant, "overlay%d", &n)
